@@ -162,15 +162,33 @@ class Builder:
             self.enums[key] = aenum.EnumType(name, (aenum.Enum,), ns, shape=signed(d[1]) if d[3] else unsigned(d[1]))
         return self.enums[key]
 
+    @staticmethod
+    def disown(cls, members, *size):
+        lay = cls(*size, members)
+        members.pop(next(iter(members)), None) if members else None
+        members["zz_added_later"] = data.Field(unsigned(1), 0) if size else unsigned(1)
+        return lay
+
     def shape(self, d):
         k = d[0]
+        # every third plain leaf is spelled the other documented way: a range with the same shape (or a bare width)
+        if k in ("u", "s") and d[1] >= 1:
+            self.nleaf = getattr(self, "nleaf", 0) + 1
+            if self.nleaf % 3 == 0:
+                alt = range(1 << d[1]) if k == "u" else range(-(1 << (d[1] - 1)), 1 << (d[1] - 1))
+                if k == "u" and self.nleaf % 2 == 0:
+                    alt = d[1]
+                if Shape.cast(alt) == (unsigned(d[1]) if k == "u" else signed(d[1])):
+                    self.alt_spellings = getattr(self, "alt_spellings", 0) + 1
+                    return alt
         if k == "u": return unsigned(d[1])
         if k == "s": return signed(d[1])
         if k == "enum": return self.enum(d)
-        if k == "struct": return data.StructLayout({n: self.shape(f) for n, f in d[1]})
-        if k == "union": return data.UnionLayout({n: self.shape(f) for n, f in d[1]})
+        # a layout is a value of its own: the dictionary it was built from is the caller's, who changes it afterwards
+        if k == "struct": return self.disown(data.StructLayout, {n: self.shape(f) for n, f in d[1]})
+        if k == "union": return self.disown(data.UnionLayout, {n: self.shape(f) for n, f in d[1]})
         if k == "array": return data.ArrayLayout(self.shape(d[1]), d[2])
-        if k == "flex": return data.FlexibleLayout(d[1], {key: data.Field(self.shape(f), off) for key, f, off in d[2]})
+        if k == "flex": return self.disown(data.FlexibleLayout, {key: data.Field(self.shape(f), off) for key, f, off in d[2]}, d[1])
         raise HarnessError(d)
 
     def pyvalue(self, d, raw, style=0, top=True):
